@@ -32,6 +32,7 @@ class DstScenario:
         self.mode, self.cktype, self.closure, self.crc = mode, cktype, closure, crc
         self.S = ctx.int("S", 0, OMAX) if S is None else S
         self.seg = seg
+        self.M = None
         self.dst_name, self.src_name = dst_name, src_name
         self.rig = DestRig(w, self.ids, mode=mode, closure=closure, cktype=cktype,
                            **(rig_kwargs or {}))
@@ -58,11 +59,19 @@ class DstScenario:
                           self.closure if closure is None else closure, self.src_name, self.dst_name)
         return self._deliver(p, ("MD",) if seq is None else ("MD", "other-seq"))
 
-    def fd(self, off, n, corrupt=False, seq=None, src_start=None):
+    def fd(self, off, n, corrupt=False, seq=None, src_start=None, jname=None):
         conf = self.conf if seq is None else rigs.pdu_conf(self.ids, self.mode, crc=self.crc, seq=seq)
-        payload = self.w.payload(off if src_start is None else src_start, n, corrupt=corrupt)
+        payload = self.w.payload(off if src_start is None else src_start, n, corrupt=corrupt,
+                                 jname=jname)
         p = rigs.file_data(conf, off, payload)
-        return self._deliver(p, ("FD" if not corrupt else "FDBAD", off, n))
+        return self._deliver(p, ("FD", off, n, corrupt))
+
+    def grid_fd(self, k, corrupt=False):
+        """k-th segment of the file segmented on a grid of self.seg"""
+        off = k * self.seg
+        self.ctx.assume(off < self.S)
+        n = symex.smin(self.seg, self.S - off)
+        return self.fd(off, n, corrupt=corrupt)
 
     def eof(self, size=None, cond=ConditionCode.NO_ERROR, checksum=None, seq=None):
         conf = self.conf if seq is None else rigs.pdu_conf(self.ids, self.mode, crc=self.crc, seq=seq)
@@ -117,10 +126,17 @@ class DstScenario:
         kind = ctx.pick(f"e{i}", list(alphabet))
         if kind == "MD":
             return self.md()
-        if kind in ("FD", "FDBAD"):
+        if kind == "FD":
             off = ctx.int(f"o{i}", 0, OMAX)
-            n = ctx.int(f"n{i}", 1 if kind == "FDBAD" else 0, LMAX)
-            return self.fd(off, n, corrupt=(kind == "FDBAD"))
+            n = ctx.int(f"n{i}", 0, LMAX)
+            return self.fd(off, n)
+        if kind == "FDX":  # File Data whose payload may be corrupted (symbolic flag)
+            off = ctx.int(f"o{i}", 0, OMAX)
+            n = ctx.int(f"n{i}", 0, LMAX)
+            return self.fd(off, n, corrupt=ctx.bool(f"bad{i}"), jname=f"j{i}")
+        if kind in ("FDG", "FDGBAD"):
+            k = ctx.choice(f"k{i}", self.M)
+            return self.grid_fd(k, corrupt=(ctx.bool(f"bad{i}") if kind == "FDGBAD" else False))
         if kind == "EOF":
             return self.eof()
         if kind == "EOFC":
